@@ -313,6 +313,10 @@ var spaceAsciiSet = makeASCIISet(" \t\r\n\f")
 
 // returns true if s is a whitespace-separated list that includes val.
 func matchInclude(val, s string, ignoreCase bool) bool {
+	if val == "" {
+		// an empty value is not a word of any list: [att~=""] represents nothing
+		return false
+	}
 	for s != "" {
 		i := spaceAsciiSet.index(s)
 		if i == -1 {
@@ -348,7 +352,8 @@ func attributeDashMatch(key, val string, n *html.Node, ignoreCase bool) bool {
 func attributePrefixMatch(key, val string, n *html.Node, ignoreCase bool) bool {
 	return matchAttribute(n, key,
 		func(s string) bool {
-			if strings.TrimSpace(s) == "" {
+			if val == "" || strings.TrimSpace(s) == "" {
+				// [att^=""], [att$=""] and [att*=""] represent nothing
 				return false
 			}
 			if ignoreCase {
@@ -363,7 +368,8 @@ func attributePrefixMatch(key, val string, n *html.Node, ignoreCase bool) bool {
 func attributeSuffixMatch(key, val string, n *html.Node, ignoreCase bool) bool {
 	return matchAttribute(n, key,
 		func(s string) bool {
-			if strings.TrimSpace(s) == "" {
+			if val == "" || strings.TrimSpace(s) == "" {
+				// [att^=""], [att$=""] and [att*=""] represent nothing
 				return false
 			}
 			if ignoreCase {
@@ -378,7 +384,8 @@ func attributeSuffixMatch(key, val string, n *html.Node, ignoreCase bool) bool {
 func attributeSubstringMatch(key, val string, n *html.Node, ignoreCase bool) bool {
 	return matchAttribute(n, key,
 		func(s string) bool {
-			if strings.TrimSpace(s) == "" {
+			if val == "" || strings.TrimSpace(s) == "" {
+				// [att^=""], [att$=""] and [att*=""] represent nothing
 				return false
 			}
 			if ignoreCase {
